@@ -56,6 +56,8 @@ func addHeaders(r *http.Request, cfg config.Proxy, stripPath string) error {
 	// connections since they aren't handled by the
 	// http proxy which sets it.
 	ws := r.Header.Get("Upgrade") == "websocket"
+	// ServeHTTP also hands 'Upgrade: Websocket' to the websocket handler
+	ws = ws || r.Header.Get("Upgrade") == "Websocket"
 	if ws {
 		clientIP := remoteIP
 		// If we aren't the first proxy retain prior
